@@ -32,6 +32,7 @@ type discloseScn struct {
 	Effective bool     `json:"effective"`
 	Inside    bool     `json:"inside"`
 	FSMod     bool     `json:"fsmod"` // fs.FS-backed module
+	Swap      bool     `json:"swap"`  // the same daemon first serves the module, then the module directory is moved away and replaced by a new one
 	Prime     bool     `json:"prime"` // the same daemon first serves the same request on the sibling module "mm" (same names, sizes, mtimes; other contents)
 }
 
@@ -297,6 +298,34 @@ func discloseHandler(w *workerCtx, line []byte) (any, error) {
 		case <-idleAfter(5 * time.Second):
 		}
 	}
+	if s.Swap && !s.FSMod {
+		// serve the module once, then replace its directory: the old tree (with a secret) now lies outside the module
+		pa, pb := xport.Conn(-1, -1, nil)
+		pdone := make(chan error, 1)
+		go func() {
+			conn := rsyncd.NewConnection(pb, pb, "127.0.0.1:7775")
+			err := srv.HandleDaemonConn(context.Background(), conn)
+			pb.Close()
+			pdone <- err
+		}()
+		perr := make(chan error, 1)
+		go func() { perr <- sess(pa, bufio.NewReader(pa), "m", "m/", false) }()
+		select {
+		case <-perr:
+		case <-idleAfter(20 * time.Second):
+		}
+		pa.Close()
+		select {
+		case <-pdone:
+		case <-idleAfter(5 * time.Second):
+		}
+		os.WriteFile(filepath.Join(mod, "f"), []byte("SECRETNAME-oldtree content"), 0o644) // same size class does not matter: it must never be served again
+		os.Rename(mod, filepath.Join(box, "mod.old"))
+		os.MkdirAll(filepath.Join(mod, "a", "a"), 0o755)
+		for name, data := range own {
+			os.WriteFile(filepath.Join(mod, name), data, 0o644)
+		}
+	}
 	errc := make(chan error, 1)
 	go func() { errc <- sess(a, rd, "m", arg, true) }()
 	select {
@@ -315,7 +344,7 @@ func discloseHandler(w *workerCtx, line []byte) (any, error) {
 	case <-idleAfter(5 * time.Second):
 	}
 	time.Sleep(time.Millisecond)
-	watch.drain(func(dir, n string) bool { return dir == box && (n == "mod" || n == "mm") })
+	watch.drain(func(dir, n string) bool { return dir == box && (n == "mod" || n == "mm" || n == "mod.old") }) // (mod.old: the harness's own rename in the "replaced" history)
 	obs.Events = append(obs.Events, watch.events...)
 	// scan the raw server stream for canaries
 	stream := raw.Bytes()
